@@ -177,6 +177,17 @@ def oracle_child(payload):
                 if not d <= 2e-5:
                     fails.append(("direct-conv-multi", f"a one-source catalogue rendered through render_for_model differs from the direct spatial convolution of "
                                                        f"the intrinsic image by {d:.2e} of the peak"))
+            # a Sersic profile with a point source on top: the point-source part is the PSF stamp at the SAME centre (xc, yc)
+            pe = dict(case["ext"])
+            fps = 0.4
+            pe["xc"], pe["yc"] = pe["xc"] - 2.25, pe["yc"] + 1.5          # off the diagonal
+            comp = np.asarray(R.render_source({**{k: jnp.float32(v) for k, v in pe.items()}, "f_ps": jnp.float32(fps)}, "sersic_pointsource"), dtype=np.float64)
+            part_s = np.asarray(R.render_source({k: jnp.float32(v if k != "flux" else (1 - fps) * v) for k, v in pe.items()}, "sersic"), dtype=np.float64)
+            part_p = ps(pe["xc"], pe["yc"], fps * pe["flux"])
+            d = float(np.abs(comp - (part_s + part_p)).max()) / max(float(np.abs(comp).max()), 1e-30)
+            if not d <= 2e-5:
+                fails.append(("composite-pointsource", f"sersic_pointsource at ({pe['xc']:.2f},{pe['yc']:.2f}) differs from its Sersic part + the PSF-convolved point source at the "
+                                                       f"same centre by {d:.2e} of the peak"))
         except Exception as e:
             fails.append(("exception", f"{type(e).__name__}: {str(e)[:200]}"))
         out.append(dict(fails=fails))
@@ -191,6 +202,13 @@ def gen_oracle_cases(ctx, n):
         N = int(rng.choice([32, 40, 41]))
         s = int(rng.choice([1, 5, 9, 8, 12, 15])) if k % 5 else int(rng.choice([9, 15]))
         psf = RC.smooth_asym_psf(rng, s)
+        if k % 4 == 1 and s >= 8:
+            # empirical PSFs have noisy / ringing wings: a smooth stamp with a shallow negative ring ("exactly as supplied")
+            yy, xx = np.mgrid[:s, :s] - (s - 1) / 2.0
+            r2 = xx ** 2 + yy ** 2
+            ring = np.exp(-r2 / (2 * (0.33 * s) ** 2)) - np.exp(-r2 / (2 * (0.2 * s) ** 2))
+            psf = psf - 0.004 * psf.max() * ring / np.abs(ring).max()      # a few pixels at −0.1 … −0.4 % of the peak
+            psf = psf / psf.sum()
         if rng.random() < 0.3:
             psf = psf * float(rng.uniform(0.5, 2.0))        # not normalised
         m = s // 2 + 2
